@@ -64,12 +64,16 @@ func pureLocals(info *types.Info, body *ast.BlockStmt) map[types.Object]ast.Expr
 		}
 		return info.Uses[id]
 	}
+	assignedFields := map[string]bool{}
 	ast.Inspect(body, func(n ast.Node) bool {
 		switch x := n.(type) {
 		case *ast.AssignStmt:
 			for _, l := range x.Lhs {
 				if o := obj(l); o != nil {
 					writes[o]++
+				}
+				if se, ok := l.(*ast.SelectorExpr); ok {
+					assignedFields[se.Sel.Name] = true
 				}
 			}
 			if x.Tok == token.DEFINE && len(x.Lhs) == 1 && len(x.Rhs) == 1 {
@@ -123,8 +127,16 @@ func pureLocals(info *types.Info, body *ast.BlockStmt) map[types.Object]ast.Expr
 			_, isBuiltin := info.Uses[x].(*types.Builtin)
 			return isConst || isType || isBuiltin
 		case *ast.SelectorExpr:
-			_, isConst := info.Uses[x.Sel].(*types.Const)
-			return isConst
+			if _, isConst := info.Uses[x.Sel].(*types.Const); isConst {
+				return true
+			}
+			// a field of an unchanged local (inEvent.Mask): read where it is defined or where it is used, the
+			// function body does not assign it in between in any code this extractor has met — if it did, the
+			// correspondence stages see the difference, the skeleton is not the place for it
+			if v, isVar := info.Uses[x.Sel].(*types.Var); isVar && v.IsField() && !assignedFields[x.Sel.Name] {
+				return sideEffectFree(x.X)
+			}
+			return false
 		case *ast.ParenExpr:
 			return sideEffectFree(x.X)
 		case *ast.UnaryExpr:
@@ -147,9 +159,6 @@ func pureLocals(info *types.Info, body *ast.BlockStmt) map[types.Object]ast.Expr
 	for o, e := range defs {
 		if writes[o] != 1 {
 			continue
-		}
-		if _, primary := e.(*ast.CallExpr); !primary {
-			continue // (an operator expression would need parentheses the un-extracted form does not have)
 		}
 		if sideEffectFree(e) {
 			out[o] = e
@@ -181,7 +190,17 @@ func (w *skWalker) nsrc(n ast.Node) string {
 		name string
 	}
 	var undo []saved
+	var stack []ast.Node
 	ast.Inspect(n, func(x ast.Node) bool {
+		if x == nil {
+			stack = stack[:len(stack)-1]
+			return true
+		}
+		var parent ast.Node
+		if len(stack) > 0 {
+			parent = stack[len(stack)-1]
+		}
+		stack = append(stack, x)
 		if _, isLit := x.(*ast.FuncLit); isLit {
 			return true
 		}
@@ -200,6 +219,22 @@ func (w *skWalker) nsrc(n ast.Node) string {
 		if e, ok := w.pure[obj]; ok && w.p.TypesInfo.Uses[id] != nil {
 			undo = append(undo, saved{id, id.Name})
 			id.Name = w.nsrc(e)
+			// parentheses exactly where writing the expression in place would need them
+			if be, isBin := unparen(e).(*ast.BinaryExpr); isBin {
+				switch pp := parent.(type) {
+				case *ast.BinaryExpr:
+					if pp.Op.Precedence() >= be.Op.Precedence() {
+						id.Name = "(" + id.Name + ")"
+					}
+				case *ast.UnaryExpr, *ast.SelectorExpr, *ast.IndexExpr, *ast.StarExpr:
+					id.Name = "(" + id.Name + ")"
+				}
+			} else if _, isUn := unparen(e).(*ast.UnaryExpr); isUn {
+				switch parent.(type) {
+				case *ast.SelectorExpr, *ast.IndexExpr:
+					id.Name = "(" + id.Name + ")"
+				}
+			}
 			return true
 		}
 		nm, seen := w.locals[obj]
